@@ -88,27 +88,27 @@ Definition bdiffs (l : list bcase) := bad_idx bdiff_case l.
 Definition bmons (l : list bcase) := mon_idx [bmon_drained; bmon_spool; bmon_closed; bmon_error; bmon_quiet; bmon_mime] l.
 
 (* =============================== leg "discard" =========================================== *)
-(* one case: a hook chain, a discard list, a list of cf-mitigated values (what Header.Get
-   returns); observed, per header value: the (status, reason) pairs the real chain discards over
-   the whole status sweep, in sweep order; and reasoncode.IsChallengePage on every reason *)
+(* one case: a hook chain, a discard list, and rows.  One row = one response environment: the
+   header map (key as stored -> values), what the real Header.Get("cf-mitigated") answers on it,
+   and the body (run-length encoded) behind a fresh reader for every call.  Observed per row: the
+   (status, reason) pairs the real chain discards over the whole status sweep, in sweep order;
+   and for a sample of statuses (403, 429, 503, 200, 404, plus every status at which the driver
+   saw the reader touched) what the body reader STILL YIELDS after the chain returned (read to
+   EOF through resp.Body as the hook left it; a closed reader yields nothing).  Per case:
+   reasoncode.IsChallengePage on every reason. *)
 Open Scope Z_scope.
 
 Definition sweep_sts : list Z := map Z.of_nat (seq 100 500) ++ [0; 99; 600; 999; 403000; -1].
 Definition all_reasons : list reason := [RNone; RChallenge; RInList; RAllPassed; REmptyChain; RHookNotSet].
 
-Record dcase := DCs { d_hooks : list hook; d_dl : list Z; d_cfs : list bytes;
-                      d_obs : list (list (Z * reason)); d_ischal : list bool }.
+Record drow := DR { dr_header : header; dr_cf : bytes; dr_body : data;
+                    dr_obs : list (Z * reason); dr_left : list (Z * data) }.
+Record dcase := DCs { d_hooks : list hook; d_dl : list Z; d_rows : list drow; d_ischal : list bool }.
 
 Fixpoint obs_eqb (a b : list (Z * reason)) : bool :=
   match a, b with
   | [], [] => true
   | (s, r) :: a', (s', r') :: b' => (s =? s') && reason_eqb r r' && obs_eqb a' b'
-  | _, _ => false
-  end.
-Fixpoint obss_eqb (a b : list (list (Z * reason))) : bool :=
-  match a, b with
-  | [], [] => true
-  | x :: a', y :: b' => obs_eqb x y && obss_eqb a' b'
   | _, _ => false
   end.
 Fixpoint bools_eqb (a b : list bool) : bool :=
@@ -121,9 +121,25 @@ Fixpoint bools_eqb (a b : list bool) : bool :=
 Definition sweep (f : Z -> bool * reason) : list (Z * reason) :=
   flat_map (fun st => let '(d, why) := f st in if d then [(st, why)] else []) sweep_sts.
 
+(* the model: the chain as a function of the whole response (Discard.gchain over hook_fn) *)
+Definition model_chain (c : dcase) (rw : drow) (st : Z) : (bool * reason) * data :=
+  gchain (map (hook_fn (d_dl c)) (d_hooks c)) (Resp st (dr_header rw) (dr_body rw)).
+
+Definition verdict_eqb (a b : bool * reason) : bool := Bool.eqb (fst a) (fst b) && reason_eqb (snd a) (snd b).
+
+(* the whole sweep is predicted by [chain] on the value [header_get] finds in the header map; at
+   the sampled statuses the whole-response model [gchain] is evaluated: its verdict must be that
+   very one (C02_hooks_pure) and its body output what the real reader still yields *)
+Definition drow_diff (c : dcase) (rw : drow) : bool :=
+  let cf := header_get cf_key (dr_header rw) in
+  negb (bytes_eqb cf (dr_cf rw)
+        && obs_eqb (sweep (fun st => chain (d_hooks c) (d_dl c) st cf)) (dr_obs rw)
+        && forallb (fun '(st, rest) => let '(v, b) := model_chain c rw st in
+                                       same_bytes rest b && verdict_eqb v (chain (d_hooks c) (d_dl c) st cf)) (dr_left rw)).
+
 Definition ddiff_case (c : dcase) : bool :=
-  negb (obss_eqb (map (fun cf => sweep (fun st => chain (d_hooks c) (d_dl c) st cf)) (d_cfs c)) (d_obs c)
-        && bools_eqb (map is_challenge_reason all_reasons) (d_ischal c)).
+  existsb (drow_diff c) (d_rows c)
+  || negb (bools_eqb (map is_challenge_reason all_reasons) (d_ischal c)).
 
 (* the policy, as the property states it *)
 Definition challengeb (st : Z) (cf : bytes) : bool := (st =? 403) && bytes_eqb cf (bs "challenge").
@@ -134,11 +150,11 @@ Definition has_hook (h : hook) (l : list hook) : bool :=
   existsb (fun x => match x, h with HCloudflare, HCloudflare | HStatus, HStatus => true | _, _ => false end) l.
 
 (* monitor 0 (discard_iff): a chain holding both default hooks - in either order - discards
-   exactly the responses the policy rejects, over the whole sweep *)
+   exactly the responses the policy rejects, over the whole sweep, in every environment *)
 Definition dmon_iff (c : dcase) : bool :=
   if has_hook HCloudflare (d_hooks c) && has_hook HStatus (d_hooks c) then
-    obss_eqb (map (fun l => map (fun p => (fst p, RNone)) l) (d_obs c))
-             (map (fun cf => sweep (fun st => (policy_rejectsb (d_dl c) st cf, RNone))) (d_cfs c))
+    forallb (fun rw => obs_eqb (map (fun p => (fst p, RNone)) (dr_obs rw))
+                               (sweep (fun st => (policy_rejectsb (d_dl c) st (dr_cf rw), RNone)))) (d_rows c)
   else true.
 
 (* monitor 1 (discard_iff, reasons): with the default order a challenge page is reported as
@@ -146,16 +162,29 @@ Definition dmon_iff (c : dcase) : bool :=
 Definition dmon_reason (c : dcase) : bool :=
   match d_hooks c with
   | [HCloudflare; HStatus] =>
-      forallb (fun '(cf, l) => forallb (fun '(st, why) => reason_eqb why (if challengeb st cf then RChallenge else RInList)) l)
-              (combine (d_cfs c) (d_obs c))
+      forallb (fun rw => forallb (fun '(st, why) => reason_eqb why (if challengeb st (dr_cf rw) then RChallenge else RInList)) (dr_obs rw))
+              (d_rows c)
   | _ => true
   end.
 
 (* monitor 2: only the Cloudflare reason counts as a challenge page *)
 Definition dmon_ischal (c : dcase) : bool := bools_eqb (d_ischal c) [false; true; false; false; false; false].
 
+(* monitor 3 (hooks_pure, body): whatever the verdict, after the chain returned the body reader
+   still yields every byte of the body - the recorder digests and ProcessBody reads what the
+   server sent, not a remainder *)
+Definition dmon_body_untouched (c : dcase) : bool :=
+  forallb (fun rw => forallb (fun '(_, rest) => same_bytes rest (dr_body rw)) (dr_left rw)) (d_rows c).
+
+(* monitor 4 (hooks_pure, verdict): the verdicts depend on the status code and the cf-mitigated
+   value only - two environments with the same cf-mitigated value (other headers, Server, body
+   differ) get the same discarded set with the same reasons *)
+Definition dmon_verdict_headers_only (c : dcase) : bool :=
+  forallb (fun r1 => forallb (fun r2 => if bytes_eqb (dr_cf r1) (dr_cf r2) then obs_eqb (dr_obs r1) (dr_obs r2) else true)
+                             (d_rows c)) (d_rows c).
+
 Definition ddiffs (l : list dcase) := bad_idx ddiff_case l.
-Definition dmons (l : list dcase) := mon_idx [dmon_iff; dmon_reason; dmon_ischal] l.
+Definition dmons (l : list dcase) := mon_idx [dmon_iff; dmon_reason; dmon_ischal; dmon_body_untouched; dmon_verdict_headers_only] l.
 
 (* =============================== leg "warcleg" =========================================== *)
 (* one case = one process: the real archiver stage with a real WARC-writing client.  Per item:
@@ -174,7 +203,10 @@ Inductive rtype := RTRequest | RTResponse | RTRevisit | RTOther.
    digest, a request record is the request for exactly that URL, a response block parses, its
    entity (after de-chunking) has the HTTP Content-Length and the WARC-Payload-Digest, a gzip
    entity decodes; r_sha / r_len: SHA-1 and length of the entity (revisit: the payload digest) *)
-Record rec := Rec { r_type : rtype; r_st : Z; r_sha : bytes; r_len : Z; r_ok : bool }.
+(* r_refs (revisit records, in the reading after Stop): the entity SHA-1s - computed by the reader
+   from the stored blocks - of the response records stored under the revisit's
+   WARC-Refers-To-Target-URI *)
+Record rec := Rec { r_type : rtype; r_st : Z; r_sha : bytes; r_len : Z; r_ok : bool; r_refs : list bytes }.
 Inductive fstatus := FArchived | FFailed | FOther.
 Record witem := WI { i_hits : list hit; i_final : fstatus; i_at_written : option (list rec);
                      i_at_out : list rec; i_at_end : list rec }.
@@ -321,6 +353,19 @@ Definition wmon_retry_rule (c : wcase) : bool :=
               end)
     end) (w_items c).
 
+(* monitor 7 (revisit_identical, "response or identical-payload revisit"): a revisit record stands
+   for a payload only if that very payload was served for its URL (its payload digest is the
+   SHA-1 of an entity the origin sent for that URL) and a full response record with an entity of
+   that SHA-1 is stored under the URI it refers to *)
+Definition is_revisit (r : rec) : bool := match r_type r with RTRevisit => true | _ => false end.
+Definition wmon_revisit_identical (c : wcase) : bool :=
+  forallb (fun it =>
+    forallb (fun r => if is_revisit r
+                      then existsb (fun h => is_resp h && bytes_eqb (h_sha h) (r_sha r)) (i_hits it)
+                           && existsb (bytes_eqb (r_sha r)) (r_refs r)
+                      else true) (i_at_end it)) (w_items c).
+
 Definition wdiffs (l : list wcase) := bad_idx wdiff_case l.
 Definition wmons (l : list wcase) :=
-  mon_idx [wmon_stored_at_end; wmon_written_at_archived; wmon_rejected_absent; wmon_members; wmon_all_at_exit; wmon_attempts; wmon_retry_rule] l.
+  mon_idx [wmon_stored_at_end; wmon_written_at_archived; wmon_rejected_absent; wmon_members; wmon_all_at_exit; wmon_attempts; wmon_retry_rule;
+           wmon_revisit_identical] l.
